@@ -75,8 +75,8 @@ ESinkDone == Is("sinkdone") /\ pc[WkE] = "work" /\ Work(WkE) /\ pc'[WkE] = "recv
 \* taken is not logged: TLC infers it (buffered if there was room, given up if the context is done).
 EErrSent ==
   /\ Is("errsent")
-  /\ IF Ev.s # "split" /\ WkE \in sentEarly
-     THEN UNCHANGED vars /\ sentEarly' = sentEarly \ {WkE}          \* already accounted for at the handler's event
+  /\ IF (Ev.s # "split" /\ WkE \in sentEarly) \/ (Ev.s = "split" /\ Split \in sentEarly)
+     THEN UNCHANGED vars /\ sentEarly' = sentEarly \ {IF Ev.s = "split" THEN Split ELSE WkE}   \* already accounted for at the handler's event
      ELSE (IF Ev.s = "split" THEN SplitErrSend ELSE ErrSend(WkE)) /\ UNCHANGED sentEarly
   /\ Adv /\ UNCHANGED <<alive, logged>>
 
@@ -89,7 +89,8 @@ EHCtx    == Is("hctx")    /\ HandlerCtx(Ev.s) /\ Adv /\ Keep
 EHErr    == /\ Is("herr")
             /\ \/ pc[H(Ev.s)] = "done" /\ UNCHANGED vars /\ UNCHANGED sentEarly
                \/ HandlerRecv(Ev.s) /\ UNCHANGED sentEarly
-               \/ \E p \in WorkersOf(Ev.s) : SendAndRecv(p) /\ sentEarly' = sentEarly \cup {p}   \* its errsend.post comes later
+               \/ Ev.s # "split" /\ \E p \in WorkersOf(Ev.s) : SendAndRecv(p) /\ sentEarly' = sentEarly \cup {p}   \* its errsend.post comes later
+               \/ Ev.s = "split" /\ pc[Split] = "errsend" /\ SplitErrSend /\ pc'[H("split")] = "done" /\ sentEarly' = sentEarly \cup {Split}
             /\ Adv /\ UNCHANGED <<alive, logged>>
 SilentHandlerRecv == /\ More /\ \E c \in ErrChans : HandlerRecv(c) /\ UNCHANGED <<l, alive, logged, sentEarly>>
 
